@@ -28,6 +28,7 @@ import json
 import os
 import shutil
 import tempfile
+import time
 
 import numpy as np
 
@@ -79,78 +80,96 @@ MANIFEST_NOTE = ('Trusted: NumPy, npstructures run-length arrays (observed via t
                  'engine/observe.py, models/intervals.py + models/genome_multi.py (plain per-base Python). Sizes above 3 '
                  'and more than two intervals per chromosome are not explored.')
 
-TRIPLES_QUICK = [('chr1', 'chr10', 'c'), ('chr10', 'chr1', 'c'), ('c', 'chr1', 'chr10'),
-                 ('chr1', 'chr1_alt', 'c'), ('chr1_alt', 'chr1', 'chr10'), ('c', 'chr10', 'chr1_alt')]
+PAIRS_PRIMARY = [('chr1', 'chr10'), ('chr10', 'chr1'), ('chr1', 'chr1_alt'), ('chr1_alt', 'c')]
+TRIPLES_PRIMARY = [('chr1', 'chr10', 'c'), ('c', 'chr10', 'chr1'), ('chr1', 'chr1_alt', 'c'), ('chr1_alt', 'c', 'chr10')]
+TRIPLES_FULLPLAN = [('chr10', 'chr1', 'c'), ('c', 'chr1_alt', 'chr1')]
 QUADS = [('chr1', 'chr10', 'chr1_alt', 'c'), ('c', 'chr1_alt', 'chr10', 'chr1')]
 SIZES = (1, 2, 3)
+# rough number of bionumpy calls per set-combination (all strand patterns and orders), only used to size shards
+CALLS = {('quick', 'full'): 95, ('quick', 'std'): 70, ('quick', 'thin'): 30,
+         ('thorough', 'full'): 140, ('thorough', 'std'): 100, ('thorough', 'thin'): 36}
 
 
 # =====================================================================================================
 # bounds and shards
 # =====================================================================================================
-def bounds(tier, seed):
+def genome_list(tier, seed):
+    """[(names, menu, plan, size filter)]"""
+    out = []
+    pairs = list(itertools.permutations(M.NAME_MENU, 2))
+    triples = list(itertools.permutations(M.NAME_MENU, 3))
+    for n in M.NAME_MENU:
+        out.append(((n,), 'full', 'full', None))
     if tier == 'quick':
-        return {'names': list(M.NAME_MENU), 'sizes': list(SIZES),
-                'genomes': 'every ordered choice of 1 and of 2 names; 3 names: %d fixed orders; every size tuple' % len(
-                    TRIPLES_QUICK),
-                'filter_modes': 'keep-all always; ignore-underscore too when a "_" name is present',
-                'sets': 'full menu (3/6/6 sets for size 1/2/3), every combination over the chromosomes',
-                'strand_patterns': ['+-', '-+'], 'orders': ['genome', 'reversed (subset of operations)'],
-                'merge_distance': [0, 1, 2], 'extend_length': [1, 2, 3, 4], 'flank': [0, 1, 2], 'window_size': [1, 2, 3],
-                'bin_size': [1, 2, 3],
-                'offsets': 'every ordered choice of 1..4 names x every size tuple x both modes: every position, every interval',
-                'extension_slice': '3-chromosome name orders outside the fixed list: the one with index seed %% 18, small menu',
-                'seed': seed}
-    return {'names': list(M.NAME_MENU), 'sizes': list(SIZES),
-            'genomes': 'every ordered choice of 1, 2, 3 names, every size tuple; 4 names: %d fixed orders with the small '
-                       'menu (none / first base / whole / last base)' % len(QUADS),
-            'filter_modes': 'keep-all always; ignore-underscore too when a "_" name is present',
-            'sets': 'full menu, every combination (4 chromosomes: small menu)',
-            'strand_patterns': list(M.STRAND_PATTERNS), 'orders': ['genome', 'reversed (subset of operations)'],
-            'merge_distance': [0, 1, 2], 'extend_length': [1, 2, 3, 4], 'flank': [0, 1, 2], 'window_size': [1, 2, 3],
-            'bin_size': [1, 2, 3],
-            'offsets': 'every ordered choice of 1..4 names x every size tuple x both modes: every position, every interval'}
+        for p in pairs:
+            out.append((p, 'full' if p in PAIRS_PRIMARY else 'small', 'std', None))
+        for t in TRIPLES_PRIMARY:
+            out.append((t, 'small', 'thin', None))
+        rest = [t for t in triples if t not in TRIPLES_PRIMARY]
+        out.append((rest[seed % len(rest)], 'small', 'thin', seed % 3 + 1))       # extension slice, rotated by the seed
+    else:
+        for p in pairs:
+            out.append((p, 'full', 'full', None))
+        for t in triples:
+            out.append((t, 'full' if t in TRIPLES_PRIMARY else 'small', 'thin', None))
+        for t in TRIPLES_FULLPLAN:
+            out.append((t, 'small', 'full', None))
+        for q in QUADS:
+            out.append((q, 'small', 'thin', None))
+    return out
+
+
+def bounds(tier, seed):
+    common = {'names': list(M.NAME_MENU), 'sizes': list(SIZES),
+              'filter_modes': 'keep-all always; ignore-underscore too when a "_" name is present',
+              'menus': {'full': 'none / first base / whole / last base / two touching / two nested (3,6,6 sets for size 1,2,3)',
+                        'small': 'none / first base / whole / last base'},
+              'set_combinations': 'every combination over the chromosomes, every size tuple',
+              'orders': ['genome', 'reversed (operations that do not need sorted input)'],
+              'merge_distance': [0, 1, 2], 'extend_length': [1, 2, 3, 4], 'flank': [0, 1, 2], 'window_size': [1, 2, 3],
+              'bin_size': [1, 2, 3],
+              'plans': {'full': 'every operation x every argument', 'std': 'every operation, thinned arguments',
+                        'thin': 'operations that work in concatenated coordinates / on genome-wide structures'},
+              'offsets': 'every ordered choice of 1..4 names x every size tuple x both modes: every position, every interval',
+              'genomes': [{'names': list(n), 'menu': m, 'plan': p, 'first_size_only': f} for n, m, p, f in genome_list(tier, seed)]}
+    if tier == 'quick':
+        common['strand_patterns'] = ['+-', '-+']
+        common['extension_slice'] = 'one further 3-chromosome name order, index seed % 20, first size = seed % 3 + 1'
+        common['seed'] = seed
+    else:
+        common['strand_patterns'] = list(M.STRAND_PATTERNS)
+    return common
 
 
 def _modes(names):
-    return ['keepall', 'default'] if any('_' in n for n in names) else ['keepall']
+    """'default' (ignore-underscore) is a different genome only if a '_' name is present; a genome whose every
+    chromosome is ignored has no chromosome at all and is outside the quantifier (1..4 chromosomes)"""
+    if any('_' in n for n in names) and any('_' not in n for n in names):
+        return ['keepall', 'default']
+    return ['keepall']
 
 
-def _n_cases(names, menu):
+def _n_cases(names, menu, first_size):
     f = M.set_menu if menu == 'full' else M.small_menu
     per = sum(len(f(s)) for s in SIZES)
-    return (per ** len(names)) * len(_modes(names))
+    first = per if first_size is None else len(f(first_size))
+    return first * (per ** (len(names) - 1)) * len(_modes(names))
 
 
 def shards(tier, seed):
     out = []
-    target = 1500 if tier == 'quick' else 4000          # cases per shard (before strand/order multiplication)
-    genomes = []
-    for k in (1, 2):
-        for names in itertools.permutations(M.NAME_MENU, k):
-            genomes.append((names, 'full'))
-    all_triples = list(itertools.permutations(M.NAME_MENU, 3))
-    if tier == 'quick':
-        for names in TRIPLES_QUICK:
-            genomes.append((names, 'full'))
-        rest = [t for t in all_triples if t not in TRIPLES_QUICK]
-        genomes.append((rest[seed % len(rest)], 'small'))          # extension slice, rotated by the seed
-    else:
-        for names in all_triples:
-            genomes.append((names, 'full'))
-        for names in QUADS:
-            genomes.append((names, 'small'))
-    for names, menu in genomes:
-        n = _n_cases(names, menu)
-        parts = max(1, (n + target - 1) // target)
+    target = 14000 if tier == 'quick' else 110000          # estimated bionumpy calls per shard
+    for names, menu, pl, first_size in genome_list(tier, seed):
+        n = _n_cases(names, menu, first_size) * CALLS[(tier, pl)]
+        parts = max(1, int(round(n / target)))
         for j in range(parts):
-            out.append({'space': 'ops', 'names': list(names), 'menu': menu, 'part': j, 'of': parts, 'tier': tier,
-                        'seed': seed})
+            out.append({'space': 'ops', 'names': list(names), 'menu': menu, 'plan': pl, 'first_size': first_size,
+                        'part': j, 'of': parts, 'tier': tier, 'seed': seed})
     for k in (1, 2, 3, 4):
         parts = {1: 1, 2: 1, 3: 2, 4: 6}[k]
         for j in range(parts):
             out.append({'space': 'offsets', 'k': k, 'part': j, 'of': parts, 'tier': tier, 'seed': seed})
-    # biggest first so that the pool's tail is short; deterministic
+    # deterministic; many-chromosome shards first so that the pool's tail is short
     out.sort(key=lambda d: (-len(d.get('names', [])) if d['space'] == 'ops' else 0, json.dumps(d, sort_keys=True)))
     return out
 
@@ -227,6 +246,7 @@ class Fixture:
         self.seqs = {n: M.chrom_seq(n, s) for n, s in zip(names, sizes)}
         self.scratch = scratch
         self._c = {}
+        self.gi_cache = {}
 
     def chrom_sizes(self):
         return {n: s for n, s in zip(self.names, self.sizes)}
@@ -308,7 +328,15 @@ def location_rows(rows):
 # operations.  call(fx, rows, arg) -> library value (inside the judged try);  form says how it is observed
 # =====================================================================================================
 def _gi(fx, rows, stranded=False):
-    return fx.genome().get_intervals(interval_table(rows, stranded), stranded=stranded)
+    """GenomicIntervals of the entries; one object per (case, strandedness) is shared by the operations of a case,
+    as a user would (the replay gate re-runs a failing operation alone in a fresh process)"""
+    key = (tuple(rows), stranded)
+    gi = fx.gi_cache.get(key)
+    if gi is None:
+        if len(fx.gi_cache) > 64:
+            fx.gi_cache.clear()
+        gi = fx.gi_cache[key] = fx.genome().get_intervals(interval_table(rows, stranded), stranded=stranded)
+    return gi
 
 
 def _locs(fx, rows, stranded):
@@ -383,8 +411,10 @@ def op_is_stranded(op, arg):
     return s
 
 
-def plan(order, first_pattern, geometry_too):
-    """(op, arg) list of one case.  Unstranded operations run only with the first strand pattern of a case group."""
+def plan(level, order, first_pattern, geometry_too):
+    """(op, arg) list of one case.  Unstranded operations run only with the first strand pattern of a case group.
+    level 'full': every operation x every argument; 'std': the same operations with thinned arguments;
+    'thin': the operations that work in concatenated coordinates or on genome-wide structures."""
     out = []
 
     def add(op, arg=None):
@@ -396,36 +426,48 @@ def plan(order, first_pattern, geometry_too):
             return
         out.append((op, arg))
 
+    full, std = level == 'full', level == 'std'
     if order == 'genome':
         add('g.mask'), add('g.pileup'), add('g.mask_data')
         for d in (0, 1, 2):
             add('g.merged', d)
-        add('g.clip'), add('g.sorted'), add('g.loc_sorted'), add('g.offsets')
-        for L in (1, 2, 3, 4):
-            add('g.extend', L)
-        for where in ('start', 'stop', 'center'):
-            add('g.location', (where, False)), add('g.location', (where, True))
-        for stranded in (False, True):
-            for f in (0, 1, 2):
-                add('g.windows', ('flank', f, stranded))
-            for w in (1, 2, 3):
-                add('g.windows', ('size', w, stranded))
-        for kind in ('distinct', 'paired'):
-            add('g.array', (kind, False)), add('g.array', (kind, True))
-        for backend in ('dict', 'fasta'):
-            add('g.seq', (backend, False)), add('g.seq', (backend, True))
-        for b in (1, 2, 3):
-            add('g.binned', b)
-        add('geo.mask'), add('geo.pileup'), add('geo.clip'), add('geo.sort'), add('geo.jaccard')
+        add('g.clip'), add('g.sorted'), add('g.offsets')
+        add('geo.mask'), add('geo.pileup'), add('geo.sort'), add('geo.jaccard')
         for d in (0, 1, 2):
             add('geo.merge', d)
-        for L in (1, 2, 3, 4):
-            add('geo.extend', L)
+        if full or std:
+            add('g.loc_sorted'), add('geo.clip')
+            for L in (1, 2, 3, 4):
+                add('g.extend', L)
+            for L in ((1, 2, 3, 4) if full else (1, 3)):
+                add('geo.extend', L)
+            for where in ('start', 'stop', 'center'):
+                add('g.location', (where, False)), add('g.location', (where, True))
+            for f in (0, 1, 2):
+                add('g.windows', ('flank', f, False))
+            for w in (1, 2, 3):
+                add('g.windows', ('size', w, False))
+            for f in ((0, 1, 2) if full else (1,)):
+                add('g.windows', ('flank', f, True))
+            for w in ((1, 2, 3) if full else (2,)):
+                add('g.windows', ('size', w, True))
+            add('g.array', ('distinct', False)), add('g.array', ('distinct', True)), add('g.array', ('paired', True))
+            add('g.seq', ('dict', True)), add('g.seq', ('fasta', False)), add('g.seq', ('fasta', True))
+            if full:
+                add('g.array', ('paired', False)), add('g.seq', ('dict', False))
+            for b in ((1, 2, 3) if full else (1, 2)):
+                add('g.binned', b)
+        else:
+            add('g.extend', 2), add('g.windows', ('flank', 1, True))
+            add('g.array', ('distinct', True)), add('g.array', ('paired', False)), add('g.seq', ('fasta', True))
+            add('g.binned', 2)
     else:
-        add('g.mask'), add('g.pileup'), add('g.sorted'), add('g.loc_sorted'), add('g.clip')
-        add('g.extend', 2), add('g.location', ('stop', True)), add('g.windows', ('flank', 1, True))
-        add('g.array', ('distinct', True)), add('g.seq', ('dict', True)), add('g.seq', ('fasta', True))
-        add('geo.sort'), add('geo.mask')
+        add('g.mask'), add('g.sorted'), add('g.array', ('distinct', True)), add('geo.sort')
+        if full or std:
+            add('g.loc_sorted'), add('g.clip'), add('g.seq', ('fasta', True))
+        if full:
+            add('g.pileup'), add('g.extend', 2), add('g.location', ('stop', True)), add('g.windows', ('flank', 1, True))
+            add('g.seq', ('dict', True)), add('geo.mask')
     return out
 
 
@@ -646,15 +688,32 @@ def _argclass(op, arg):
     return None if arg is None else 'n'
 
 
+class _Singles:
+    """one-chromosome reference runs, computed on demand"""
+
+    def __init__(self, *a):
+        self.a = a
+        self.got = {}
+
+    def __getitem__(self, c):
+        if c not in self.got:
+            ctx, res, fx, mode, op, arg, rows = self.a
+            self.got[c] = single_reference(ctx, res, fx, mode, op, arg, rows, c)
+        return self.got[c]
+
+
 def judge(ctx, res, fx, mode, rows, op, arg):
     """run one operation on the whole genome and judge it; returns a short outcome string"""
     api = OPS[op][0]
     eff_mode = 'default' if api == 'geometry' else mode          # Geometry always applies the default filter
     inc = M.included(fx.names, eff_mode)
     ignored_entries = any(r[0] not in inc for r in rows)
+    if len(fx.names) == 1 and inc and OPS[op][1] not in ('scalar', 'offsets') and op != 'geo.sort':
+        # a one-chromosome genome: the case IS the single-contig run (clauses 'one-chromosome-genome-...')
+        s = single_reference(ctx, res, fx, eff_mode, op, arg, rows, inc[0])
+        return '%s:%s' % (op, s[0] if s[0] != 'raises' else 'raises:' + s[1])
     st, v = execute(fx, rows, op, arg)
     res.transitions += 1
-    feats = None
     if OPS[op][1] == 'scalar':
         return judge_scalar(res, fx, eff_mode, rows, op, arg, st, v)
     if OPS[op][1] == 'offsets':
@@ -663,11 +722,11 @@ def judge(ctx, res, fx, mode, rows, op, arg):
         res.raising += 1
         res.extra['raw-table API raises on entries of an ignored chromosome (not judged)'] += 1
         return op + ':raises-on-ignored-entries'
-    singles = {c: single_reference(ctx, res, fx, eff_mode, op, arg, rows, c) for c in inc}
+    singles = _Singles(ctx, res, fx, eff_mode, op, arg, rows)
     mdl = model(fx, eff_mode, op, arg, rows)
     if st == 'raises':
         name = exc_name(v)
-        if any(s == ('raises', name) for s in singles.values()):
+        if any(singles[c] == ('raises', name) for c in inc):
             res.extra['whole-genome failure already explained by a one-chromosome failure'] += 1
             return '%s:raises:%s(as on one chromosome)' % (op, name)
         res.fail('whole-genome-raises', case_dict(fx, mode, rows, op, arg), features_of(fx, eff_mode, op, arg, rows),
@@ -684,6 +743,9 @@ def judge(ctx, res, fx, mode, rows, op, arg):
     bad = []
     explained = 0
     for c in inc:
+        if mdl is not None and same(per[c], mdl[c]):
+            continue          # equals the single-contig definition; one-chromosome genomes are judged against the
+            #                   same definition in the one-chromosome cases, so the differential clause follows
         s = singles[c]
         ref = mdl[c] if mdl is not None else (s[1] if s[0] == 'ok' else None)
         if ref is None:
@@ -781,12 +843,12 @@ def judge_offsets(res, fx, mode, rows, op, arg, st, v):
     return op + ':ok'
 
 
-def run_case(ctx, res, fx, mode, sets, pattern, order, first_pattern, only=None):
+def run_case(ctx, res, fx, mode, sets, pattern, order, first_pattern, level='full'):
     rows = M.make_rows(fx.names, sets, pattern, order)
     geometry_too = (mode == 'default') or not any('_' in n for n in fx.names)
-    ops = plan(order, first_pattern, geometry_too)
-    if only is not None:
-        ops = [only]
+    ops = plan(level, order, first_pattern, geometry_too)
+    if not ops:
+        return
     res.evaluations += 1
     res.states += 1
     res.planned += 1
@@ -908,10 +970,12 @@ def check_offsets(res, names, sizes, mode, scratch, with_file):
 # =====================================================================================================
 # shard runner
 # =====================================================================================================
-def _case_iter(names, menu):
+def _case_iter(names, menu, first_size=None):
     f = M.set_menu if menu == 'full' else M.small_menu
     for mode in _modes(names):
         for sizes in itertools.product(SIZES, repeat=len(names)):
+            if first_size is not None and sizes[0] != first_size:
+                continue
             for sets in itertools.product(*[f(s) for s in sizes]):
                 yield mode, sizes, sets
 
@@ -932,6 +996,7 @@ def _patterns(tier, n_rows):
 def run_shard(desc, deadline):
     res = Result()
     scratch = tempfile.mkdtemp(prefix='c10_', dir='/dev/shm')
+    t0 = time.process_time()
     try:
         if desc['space'] == 'offsets':
             _run_offsets(res, desc, deadline, scratch)
@@ -939,6 +1004,7 @@ def run_shard(desc, deadline):
             _run_ops(res, desc, deadline, scratch)
     finally:
         shutil.rmtree(scratch, ignore_errors=True)
+    res.extra['cpu_seconds(all shards)'] += round(time.process_time() - t0, 2)
     return res
 
 
@@ -962,7 +1028,7 @@ def _run_ops(res, desc, deadline, scratch):
     ctx = Ctx(scratch)
     names = tuple(desc['names'])
     tier = desc['tier']
-    for i, (mode, sizes, sets) in enumerate(_case_iter(names, desc['menu'])):
+    for i, (mode, sizes, sets) in enumerate(_case_iter(names, desc['menu'], desc.get('first_size'))):
         if i % desc['of'] != desc['part']:
             continue
         if deadline.expired():
@@ -972,7 +1038,7 @@ def _run_ops(res, desc, deadline, scratch):
         n_rows = sum(len(s) for s in sets)
         for order in (('genome', 'reversed') if n_rows >= 2 else ('genome',)):
             for pi, pattern in enumerate(_patterns(tier, n_rows)):
-                run_case(ctx, res, fx, mode, sets, pattern, order, first_pattern=(pi == 0))
+                run_case(ctx, res, fx, mode, sets, pattern, order, first_pattern=(pi == 0), level=desc['plan'])
 
 
 # =====================================================================================================
